@@ -1,7 +1,7 @@
 #!/bin/sh
 # applies each property-preserving refactor under seeded/benign to the isolated copy and runs every quick check:
 # none may report a violation or a tool error
-ROOT=/tmp/sv
+ROOT=${SV_ROOT:-/tmp/sv}
 cd /verif && tools/seediso.sh >/dev/null
 DIR=${1:-/verif/seeded/benign}
 for d in $DIR/*.diff; do
